@@ -51,6 +51,214 @@ def rand_chunk(rng, dims):
     return ch
 
 
+
+# ----------------------------------------------------------------------------- extended dataset kinds
+
+NUM_TYPES = list(ESZ)
+ENUM_BASES = ["int8", "int16", "int32", "int64", "uint8", "uint16", "uint32", "uint64"]
+VLEN_BASES = ["string", "int32", "int64", "uint32", "uint64", "float32", "float64"]
+MEMBER_NAMES = ["id", "value", "x", "y", "t", "flag", "name", "count", "m%d", "long_member_name_%d", "é"]
+
+
+def rand_compound(rng, spec_safe=False, string_last=True):
+    """a compound record type with 1-5 members of numeric / fixed-string types at packed or padded offsets.
+    string_last: at most one string member, placed last (a string member followed by another member is the open finding
+    C11-compound-member-extent).  spec_safe (C05): floating-point member types are built through EncodeDatatypeMessage (the
+    listed private property layout) instead of CreateBasicDatatypeMessage."""
+    n = rng.choice([1, 2, 2, 3, 3, 4, 5])
+    types = [rng.choice(NUM_TYPES + (["string"] if not string_last else [])) for _ in range(n)]
+    if string_last and rng.random() < 0.35:
+        types[-1] = "string"
+    names, members = set(), []
+    padded = rng.random() < 0.45
+    off = 0
+    for i, t in enumerate(types):
+        nm = rng.choice(MEMBER_NAMES)
+        nm = nm % i if "%d" in nm else nm
+        while nm in names:
+            nm += str(i)
+        names.add(nm)
+        size = rng.choice([1, 3, 8, 9]) if t == "string" else ESZ[t]
+        if padded:
+            off += rng.choice([0, 0, 1, 3, (-off) % max(1, min(size, 8))])
+        m = {"name": nm, "type": t, "off": off}
+        if t == "string":
+            m["size"] = size
+        if spec_safe and t.startswith("float"):
+            m["via"] = "encode"
+        members.append(m)
+        off += size
+    csize = off + (rng.choice([0, 0, 1, 4]) if padded else 0)
+    enc = rng.choice(["v3", "v3", "v1"]) if padded else rng.choice(["fields", "fields", "v3", "v1"])
+    return {"members": members, "csize": csize, "enc": enc}
+
+
+def rand_compound_data(rng, comp, n, unsigned_high=False):
+    """n records; padding bytes are random too (the bytes of a record are preserved as a whole).
+    unsigned_high=False: uint32 / uint64 members stay below 2^31 / 2^63 (ReadCompound returns them as int32 / int64: proposed
+    KNOWN-FINDING C01-compound-unsigned-as-signed, re-confirmed separately by C01)"""
+    out = bytearray(rng.getrandbits(8) for _ in range(n * comp["csize"]))
+    for i in range(n):
+        for m in comp["members"]:
+            if m["type"] == "string":
+                ln = rng.choice([0, 1, m["size"] - 1, m["size"]])
+                b = bytes(rng.randint(1, 255) for _ in range(max(0, ln))).ljust(m["size"], b"\x00")
+            else:
+                b = rand_data(rng, m["type"], 1)
+                if m["type"] in ("uint32", "uint64") and not unsigned_high:
+                    b = b[:-1] + bytes([b[-1] & 0x7F])
+            o = i * comp["csize"] + m["off"]
+            out[o:o + len(b)] = b
+    return bytes(out)
+
+
+def rand_ext_kind(rng, spec_safe=False, vlen=True):
+    """creation fields of one dataset of an extended kind (everything CreateDataset accepts beyond scalars / strings)"""
+    k = rng.choice(["array", "array", "enum", "enum", "opaque", "objref", "regref"] + (["vlen"] if vlen else []))
+    if k == "array":
+        base = rng.choice(NUM_TYPES)
+        return {"dtype": "array:" + base, "adims": rng.choice([[1], [2], [3], [2, 2], [3, 2], [2, 1, 2], [5]])}
+    if k == "enum":
+        base = rng.choice(ENUM_BASES)
+        n = rng.choice([1, 2, 3, 5, 8]) if not spec_safe else rng.choice([2, 3, 5, 8])
+        pool = ["RED", "GREEN", "BLUE", "A", "B", "OFF", "ON", "state_%d", "a_rather_long_enumeration_member_name_%d", "SEVENCH", "x"]
+        names = []
+        for i in range(n):
+            nm = rng.choice(pool)
+            nm = nm % i if "%d" in nm else nm
+            while nm in names or (spec_safe and i == 0 and len(nm) % 8 == 7):
+                nm += str(i)
+            names.append(nm)
+        lo, hi = (-(2 ** (8 * ESZ[base] - 1)), 2 ** (8 * ESZ[base] - 1) - 1) if base.startswith("int") else (0, 2 ** (8 * ESZ[base]) - 1)
+        hi = min(hi, 2 ** 63 - 1)
+        vals = rng.sample(range(max(lo, -100), min(hi, 100) + 1), n) if rng.random() < 0.6 else \
+            list({rng.choice([lo, hi, 0, 1, rng.randint(lo, hi)]) for _ in range(n * 3)})[:n]
+        while len(vals) < n:
+            vals.append(rng.randint(lo, hi))
+        rng.shuffle(vals)
+        return {"dtype": "enum:" + base, "enames": names, "evals": vals}
+    if k == "opaque":
+        return {"dtype": "opaque", "strsize": rng.choice([1, 3, 8, 16]), "tag": rng.choice(["verif", "t", "JPEG image", "exactly8", "a tag that is longer than sixteen bytes"])}
+    if k == "vlen":
+        return {"dtype": "vlen:" + rng.choice(VLEN_BASES)}
+    return {"dtype": k}
+
+
+def elem_size(d):
+    from histlib import esize_of
+    return esize_of(d["dtype"], d.get("strsize", 0), d.get("adims"), d.get("csize", 0))
+
+
+def write_op(rng, p, d, n=None):
+    """a full write of dataset p (dict from the generators: dtype, dims, strsize, adims, evals, comp) with n elements (default: all)"""
+    n = prod(d["dims"]) if n is None else n
+    dt = d["dtype"]
+    if dt in ESZ or dt == "string":
+        return {"op": "write", "path": p, "val": rand_data(rng, dt, n, d.get("strsize", 0)).hex()}
+    if dt == "compound":
+        return {"op": "write", "path": p, "raw": True, "val": rand_compound_data(rng, d["comp"], n).hex()}
+    if dt.startswith("vlen:"):
+        b = dt[5:]
+        w = 1 if b == "string" else ESZ[b]
+        vals = []
+        for _ in range(n):
+            ln = rng.choice([0, 1, 2, 3, 7, 8, 9, rng.randint(0, 30)])
+            vals.append((bytes(rng.randint(1, 255) for _ in range(ln)) if b == "string" else bytes(rng.getrandbits(8) for _ in range(ln * w))).hex())
+        return {"op": "write", "path": p, "dtype": dt, "vals": vals}
+    if dt.startswith("array:"):
+        base = dt[6:]
+        raw = rand_data(rng, base, n * prod(d["adims"]))
+    elif dt.startswith("enum:"):
+        base = dt[5:]
+        m = (1 << (8 * ESZ[base])) - 1
+        ev = [v & m for v in d["evals"]]
+        raw = b"".join((rng.choice(ev) if rng.random() < 0.9 else rng.getrandbits(8 * ESZ[base])).to_bytes(ESZ[base], "little") for _ in range(n))
+    else:       # opaque, objref, regref: uninterpreted bytes
+        raw = bytes(rng.getrandbits(8) for _ in range(n * elem_size(d)))
+    op = {"op": "write", "path": p, "val": raw.hex()}
+    if dt in ("regref", "opaque") or rng.random() < 0.4:
+        op["raw"] = True        # WriteRaw; the typed Write takes a slice of the base type (arrays, enums, object references)
+    if dt == "opaque" and rng.random() < 0.5:
+        op.pop("raw")           # Write([]byte) is the typed write of opaque data
+    return op
+
+
+def gen_tail_kind(rng, spec_safe=False, dense=True):
+    """Multi-session histories in which the LAST object allocated in the creating session is of each kind in turn (plain /
+    chunked / compound / array / enum / opaque / reference / variable-length dataset, group, dense group, soft link), and later
+    sessions (a) move ANOTHER dataset to dense attribute storage (the first allocation of that session), (b) grow the header of the
+    last object, (c) touch the others.  C10: the allocator of a session is seeded from the file size, so whatever was reserved
+    last must still be owned (added after seeded change C10-c was missed)."""
+    ops, dsets = [], {}
+    def mk(p, kind):
+        dims = [rng.choice([1, 2, 3, 4])]
+        d = None
+        if kind == "plain":
+            dt = rng.choice(NUM_TYPES)
+            d = dict(dtype=dt, dims=dims)
+            ops.append({"op": "mkds", "path": p, "dtype": dt, "dims": dims})
+        elif kind == "string":
+            d = dict(dtype="string", dims=dims, strsize=4)
+            ops.append({"op": "mkds", "path": p, "dtype": "string", "dims": dims, "strsize": 4})
+        elif kind == "chunked":
+            dt = rng.choice(NUM_TYPES)
+            d = dict(dtype=dt, dims=dims, chunk=[1])
+            ops.append({"op": "mkds", "path": p, "dtype": dt, "dims": dims, "chunk": [1]})
+        elif kind == "compound":
+            comp = rand_compound(rng, spec_safe)
+            d = dict(dtype="compound", dims=dims, comp=comp, csize=comp["csize"])
+            ops.append(dict({"op": "mkcompound", "path": p, "dims": dims}, **comp))
+        elif kind in ("array", "enum", "opaque", "objref", "regref", "vlen"):
+            while True:
+                f = rand_ext_kind(rng, spec_safe)
+                if f["dtype"].split(":")[0] == kind:
+                    break
+            d = dict(f, dims=dims)
+            ops.append(dict({"op": "mkds", "path": p, "dims": dims}, **f))
+        elif kind == "group":
+            ops.append({"op": "mkgroup", "path": p})
+        elif kind == "dense":
+            ops.append({"op": "mkdense", "path": p, "links": {"l%d" % i: q for i, q in enumerate(list(dsets)[:rng.choice([0, 1, 2])])}})
+        elif kind == "softlink":
+            ops.append({"op": "softlink", "path": p, "target": "/d0"})
+        if d is not None:
+            dsets[p] = d
+            if rng.random() < 0.9:
+                ops.append(write_op(rng, p, d))
+    kinds = ["plain", "string", "chunked", "compound", "compound", "compound", "array", "enum", "opaque", "objref", "regref", "vlen", "group"] + (["dense"] if dense else [])
+    for i in range(rng.choice([1, 2, 3])):
+        mk("/d%d" % i, rng.choice(["plain", "plain", "chunked", "compound", "array", "enum"]))
+        for j in range(rng.choice([0, 0, 2, 6])):
+            k, v = rand_attr_value(rng)
+            ops.append({"op": "setattr", "path": "/d%d" % i, "name": hx("p%d" % j), "kind": k, "val": v.hex()})
+    last_kind = rng.choice(kinds)
+    mk("/last", last_kind)
+    others = [p for p in dsets if p != "/last"]
+    plan = ["dense_other", "attr_last", "attr_other"] if rng.random() < 0.5 else [rng.choice(["dense_other", "attr_last", "attr_other", "write", "dense_last", "noop"]) for _ in range(rng.choice([2, 3, 4]))]
+    for act in plan:
+        ops += [{"op": "close"}, {"op": "dump"}, {"op": "reopen"}]
+        if act == "dense_other" and others:
+            p = rng.choice(others)
+            for j in range(rng.choice([9, 10, 12])):
+                k, v = rand_attr_value(rng)
+                ops.append({"op": "setattr", "path": p, "name": hx("a%02d" % j), "kind": k, "val": v.hex()})
+        elif act in ("attr_last", "dense_last") and "/last" in dsets:
+            for j in range(1 if act == "attr_last" else 10):
+                k, v = rand_attr_value(rng)
+                ops.append({"op": "setattr", "path": "/last", "name": hx(rng.choice(["note", "n%d" % j, "zz"]) if act == "attr_last" else "L%02d" % j), "kind": k, "val": v.hex()})
+        elif act == "attr_other" and others:
+            k, v = rand_attr_value(rng)
+            ops.append({"op": "setattr", "path": rng.choice(others), "name": hx(rng.choice(["extra", "a00", "p0"])), "kind": k, "val": v.hex()})
+        elif act == "write" and dsets:
+            p = rng.choice(list(dsets))
+            w = write_op(rng, p, dsets[p])
+            if "vals" not in w:
+                w["raw"] = True         # handles of a later session: WriteRaw works for every contiguous dataset
+            ops.append(w)
+    ops += [{"op": "close"}, {"op": "dump"}]
+    return ops
+
+
 ATTR_KINDS = ["i8", "i16", "i32", "i64", "u8", "u16", "u32", "u64", "f32", "f64", "str", "[]i32", "[]i64", "[]f32", "[]f64"]
 KSZ = {"i8": 1, "i16": 2, "i32": 4, "i64": 8, "u8": 1, "u16": 2, "u32": 4, "u64": 8, "f32": 4, "f64": 8,
        "[]i32": 4, "[]i64": 8, "[]f32": 4, "[]f64": 8}
@@ -79,17 +287,22 @@ def name_pool(rng, n, long_names=False):
     return sorted(set(out))
 
 
-def gen_mixed(rng, nops=40, sessions=1, fail_rate=0.15, big_groups=False, resize=True, links=True, attrs=True, group_links=False, soft_links=False, shrink_grow=False, handles=0.0):
+def gen_mixed(rng, nops=40, sessions=1, fail_rate=0.15, big_groups=False, resize=True, links=True, attrs=True, group_links=False, soft_links=False, shrink_grow=False, handles=0.0,
+              ext=True, dense=True, spec_safe=False):
     """A random multi-object history: groups (nested), datasets (all layouts), writes, attributes, hard/soft links,
     resizes, duplicate / missing-parent / invalid requests, optional close/reopen sessions.
     handles > 0: in reopened sessions a dataset path is opened again with OpenDataset now and then ("opends") and the
-    dataset operations pick one of the handles obtained so far ("h"): several live handles on one object."""
+    dataset operations pick one of the handles obtained so far ("h"): several live handles on one object.
+    ext: about a third of the datasets are of the extended kinds (compound through CreateCompoundDataset; array, enum, opaque with
+    random tags, object / region reference, variable-length through CreateDataset); dense: groups are now and then created through
+    CreateDenseGroup (links to existing datasets) / CreateGroupWithLinks; spec_safe: see rand_compound / rand_ext_kind (C05)."""
     ops = []
     groups = ["/"]
     dsets = {}      # path -> dict(dtype, dims, maxdims, chunk, strsize)
     names = ["a", "b", "c", "d1", "d2", "grp", "x", "y", "data", "sub", "n%d"]
     sess_ops = max(3, nops // sessions)
     cur_session = 0
+    leafgroups = []     # groups made by CreateDenseGroup / CreateGroupWithLinks
     def newpath():
         parent = rng.choice(groups)
         nm = rng.choice(names)
@@ -113,7 +326,7 @@ def gen_mixed(rng, nops=40, sessions=1, fail_rate=0.15, big_groups=False, resize
         r = rng.random()
         if r < fail_rate:
             # an operation chosen to fail
-            k = rng.choice(["dup", "noparent", "badpath", "delabsent", "badsize", "badresize", "zerodim", "linknotarget"])
+            k = rng.choice(["dup", "noparent", "badpath", "delabsent", "badsize", "badresize", "zerodim", "linknotarget"] + (["badtype", "badgroup"] if ext else []))
             if k == "dup" and (len(groups) > 1 or dsets):
                 p = rng.choice([g for g in groups if g != "/"] + list(dsets))
                 ops.append(rng.choice([{"op": "mkgroup", "path": p}, {"op": "mkds", "path": p, "dtype": "int32", "dims": [2]},
@@ -131,7 +344,30 @@ def gen_mixed(rng, nops=40, sessions=1, fail_rate=0.15, big_groups=False, resize
                 p = rng.choice(list(dsets)); d = dsets[p]
                 if d["dtype"] != "string":
                     n = prod(d["dims"]) + rng.choice([-1, 1, 3])
-                    ops.append({"op": "write", "path": p, "val": rand_data(rng, d["dtype"], max(0, n)).hex()})
+                    ops.append(write_op(rng, p, d, max(0, n)))
+            elif k == "badtype":
+                p, _ = newpath()
+                comp = rand_compound(rng, spec_safe)
+                ops.append(rng.choice([
+                    {"op": "mkcompound", "path": p + "q", "dims": [2], "members": [], "csize": 4, "enc": "v3"},
+                    dict({"op": "mkcompound", "path": p + "q", "dims": [0]}, **comp),
+                    dict({"op": "mkcompound", "path": "/nope/c", "dims": [2]}, **comp),
+                    dict({"op": "mkcompound", "path": p + "q", "dims": [4], "chunk": [2]}, **comp),      # chunked compound: the API refuses
+                    {"op": "mkds", "path": p + "q", "dtype": "array:int32", "dims": [2]},
+                    {"op": "mkds", "path": p + "q", "dtype": "enum:int8", "dims": [2], "enames": ["A", "B"], "evals": [1]},
+                    {"op": "mkds", "path": p + "q", "dtype": "enum:uint16", "dims": [2]},
+                    {"op": "mkds", "path": p + "q", "dtype": "opaque", "dims": [2], "strsize": 0, "tag": "t"}]))
+                if ops[-1].get("chunk") and ops[-1]["op"] == "mkcompound":
+                    pass        # if the library ever accepts it the oracle follows; the generator does not use the path again
+            elif k == "badgroup":
+                p, _ = newpath()
+                tgt = rng.choice(list(dsets)) if dsets else "/"
+                ops.append(rng.choice([
+                    {"op": "mkdense", "path": p + "g", "links": {"a": "/does/not/exist"}},
+                    {"op": "mkdense", "path": "/nope%d/g" % rng.randint(0, 9), "links": {}},
+                    {"op": "mkdense", "path": rng.choice([g for g in groups if g != "/"] + list(dsets) + ["relative"]), "links": {}},
+                    {"op": "mkgrouplinks", "path": p + "g", "links": {"l%d" % i: tgt for i in range(rng.choice([1, 2, 8]))}},   # refused for 1..8 links: must leave nothing behind
+                    {"op": "mkgrouplinks", "path": p + "g", "links": {"l%d" % i: "/missing" for i in range(9)}}]))
             elif k == "badresize" and dsets:
                 p = rng.choice(list(dsets)); d = dsets[p]
                 if d["maxdims"] is None:
@@ -153,11 +389,40 @@ def gen_mixed(rng, nops=40, sessions=1, fail_rate=0.15, big_groups=False, resize
             continue
         if r < 0.25 and cur_session == 0:
             p, parent = newpath()
+            if dense and rng.random() < 0.06 and p not in groups and p not in dsets:
+                # a group created together with its links; nothing can be created inside it afterwards (not registered as a parent)
+                tg = list(dsets)
+                nl = rng.choice([0, 1, 2, 3]) if rng.random() < 0.8 else rng.choice([9, 12])
+                lk = {"k%d" % i: rng.choice(tg) for i in range(nl)} if tg else {}
+                ops.append({"op": "mkdense" if (lk and len(lk) <= 8) or rng.random() < 0.5 else "mkgrouplinks", "path": p, "links": lk})
+                leafgroups.append(p)
+                continue
             ops.append({"op": "mkgroup", "path": p})
-            if p not in groups and p not in dsets:
+            if p not in groups and p not in dsets and p not in leafgroups:
                 groups.append(p)
         elif r < 0.45 and cur_session == 0:
             p, parent = newpath()
+            if ext and rng.random() < 0.35 and p not in leafgroups:
+                dims = rand_shape(rng, maxrank=2, maxelems=40)
+                if rng.random() < 0.45:
+                    comp = rand_compound(rng, spec_safe)
+                    op = dict({"op": "mkcompound", "path": p, "dims": dims}, **comp)
+                    d = dict(dtype="compound", dims=list(dims), maxdims=None, chunk=None, strsize=0, comp=comp, csize=comp["csize"])
+                else:
+                    f = rand_ext_kind(rng, spec_safe)
+                    op = dict({"op": "mkds", "path": p, "dims": dims}, **f)
+                    if rng.random() < 0.3:
+                        op["chunk"] = [max(1, min(x, rng.choice([1, 2, 3, x]))) for x in dims]
+                        if resize and rng.random() < 0.4 and not f["dtype"].startswith("vlen:"):
+                            op["maxdims"] = [rng.choice([UNLIMITED, x, x + rng.choice([1, 4])]) for x in dims]
+                    d = dict(f, dims=list(dims), maxdims=op.get("maxdims"), chunk=op.get("chunk"))
+                    d.setdefault("strsize", 0)
+                ops.append(op)
+                if p not in dsets and p not in groups:
+                    dsets[p] = d
+                    if rng.random() < 0.8:
+                        ops.append(write_op(rng, p, d))
+                continue
             dt = rng.choice(list(ESZ) + ["string"])
             dims = rand_shape(rng, maxrank=3, maxelems=200)
             op = {"op": "mkds", "path": p, "dtype": dt, "dims": dims}
@@ -169,13 +434,13 @@ def gen_mixed(rng, nops=40, sessions=1, fail_rate=0.15, big_groups=False, resize
             if rs:
                 op["maxdims"] = [rng.choice([UNLIMITED, d, d + rng.choice([1, 4, 9])]) for d in dims]
             ops.append(op)
-            if p not in dsets and p not in groups:
+            if p not in dsets and p not in groups and p not in leafgroups:
                 dsets[p] = dict(dtype=dt, dims=list(dims), maxdims=op.get("maxdims"), chunk=op.get("chunk"), strsize=op.get("strsize", 0))
                 if rng.random() < 0.8:
                     ops.append({"op": "write", "path": p, "val": rand_data(rng, dt, prod(dims), op.get("strsize", 0)).hex()})
         elif r < 0.55 and dsets:
             p = rng.choice(list(dsets)); d = dsets[p]
-            ops.append({"op": "write", "path": p, "val": rand_data(rng, d["dtype"], prod(d["dims"]), d["strsize"]).hex()})
+            ops.append(write_op(rng, p, d))
             d["low"] = [False] * len(d["dims"])
         elif r < 0.80 and attrs and (dsets or len(groups) > 1):
             cands = list(dsets) + ([g for g in groups if g != "/"] if cur_session == 0 else [])
@@ -183,7 +448,10 @@ def gen_mixed(rng, nops=40, sessions=1, fail_rate=0.15, big_groups=False, resize
                 continue
             p = rng.choice(cands)
             nm = rng.choice(["u", "v", "w", "name_%d" % rng.randint(0, 12), "scale", "k" * rng.choice([1, 30, 90])])
-            if p in dsets and rng.random() < 0.25:
+            if ext and rng.random() < 0.04:     # explicit rebalancing calls (file level and per dataset): no logical effect
+                ops.append(rng.choice([{"op": "rebalance", "kind": "disable"}, {"op": "rebalance", "kind": "enable"}, {"op": "rebalance"},
+                                       {"op": "rebalance", "path": p if p in dsets else (rng.choice(list(dsets)) if dsets else "/absent")}]))
+            elif p in dsets and rng.random() < 0.25:
                 ops.append({"op": "delattr", "path": p, "name": hx(nm)})
             else:
                 k, v = rand_attr_value(rng, big=rng.random() < 0.15)
@@ -213,7 +481,7 @@ def gen_mixed(rng, nops=40, sessions=1, fail_rate=0.15, big_groups=False, resize
                         pass
                 d["dims"] = nd
                 if will_write:
-                    ops.append({"op": "write", "path": p, "val": rand_data(rng, d["dtype"], prod(nd)).hex()})
+                    ops.append(write_op(rng, p, d))
                     d["low"] = [False] * len(nd)
         else:
             if rng.random() < 0.3:
@@ -221,7 +489,7 @@ def gen_mixed(rng, nops=40, sessions=1, fail_rate=0.15, big_groups=False, resize
                 ops.append({"op": "close"})
                 if rng.random() < 0.5 and dsets:
                     p = rng.choice(list(dsets)); d = dsets[p]
-                    ops.append({"op": "write", "path": p, "val": rand_data(rng, d["dtype"], prod(d["dims"]), d["strsize"]).hex()})
+                    ops.append(write_op(rng, p, d))
                     ops.append({"op": "mkgroup", "path": "/afterclose"})
                 break
     if handles:
